@@ -162,6 +162,11 @@ Proof.
 Qed.
 Print Assumptions C08_small_gen_optimum.
 
+(* capacity is not binding on small.py although its demands are not zero (hypothesis of the arc / sequence clauses of C08) *)
+Theorem C08_small_gen_capacity_free : capacity_free small_st.
+Proof. apply C08_capacity_free_nonneg_demands; vm_compute; reflexivity. Qed.
+Print Assumptions C08_small_gen_capacity_free.
+
 (* ... and the default-penalty QUBO of get_path_based().get_qubo(): its minimisers over all binary vectors are exactly
    the indicator vectors of the optimal partitions, with the optimal routing cost as value *)
 Theorem C08_small_gen_path_qubo :
